@@ -521,8 +521,8 @@ Definition step_rename_space (st : state) (p : path) (new : string) : outcome * 
   | [] => reject st NoSuchSpace
   | _ =>
       if negb (has_space st p) then reject st NoSuchSpace
+      else if negb (is_valid_name new) then reject st InvalidName     (* N4, repaired in /repo f003354: tested first *)
       else if negb (can_add_space st (parent_of p) new) then reject st NameInUse
-      else if negb (is_valid_name new) then reject st InvalidName     (* ideal; N4 *)
       else (Accepted, relabel st p (parent_of p ++ [new])%list)
   end.
 
